@@ -31,63 +31,17 @@ def event_kind_of(f, op):
     return None
 
 
-def run(ctx):
-    P = ctx.prog
-    E = Effects(P)
-    ctx.not_decided = 'a panic inside run_session (no unwinding model, A2); provider-side behaviours are covered only in so far as every path of the code is covered.'
-    ctx.rule('C07.1', 'single exit: append_run_ended has exactly one call site in the workspace, in run_session, outside every loop, dominated by write_snapshot; every path from entry to return passes write_snapshot, and the only way around append_run_ended is the None edge of the continuity_run test; no frame is emitted after it.')
-    ctx.rule('C07.2', 'exactly one terminal session frame on every path of run_session: abstract interpretation over (terminal frames emitted in {0,1,2+}, skip_runtime_loop in {F,T}); explicit SessionEnded emissions count 1, entering the kernel next_event loop counts 1; every return must be reached with count == 1. Session::next_event constructs SessionEnded only in stage End and in the hook-abort arm, both of which set stage Done.')
-    ctx.rule('C07.3', 'order inside a run: selection_decided dominates context_compiled with no other truth append between; neither can follow the provider loop call; cursor_updated is dominated by the loop call and cannot follow the terminal emission.')
-    ctx.rule('C07.4', 'post message: append_message dominates append_run_spawned dominates spawn_session; spawn_session is unreachable from the error edge of either; none is in a loop.')
-    ctx.rule('C07.5', 'a compaction job is ended at most once: the append_job_ended sites are mutually unreachable and outside loops.')
-    ctx.rule('C07.6', 'Runtime::register_hook has no caller in production code (an aborting hook would end a session before its start frame).')
-
+def run_session_states(P):
+    """flag-correlated abstract interpretation of run_session over (block, terminal frames
+    emitted in {0,1,2+}, skip_runtime_loop in {None,F,T}). Returns a dict used by C07.2, C07.3
+    and C01.7."""
     rs = P.body('ripd::session::run_session')
-    ctx.touch(rs)
-    # ---------------------------------------------------------------- C07.1
-    enders = P.callers(r'^ripd::continuities::ContinuityStore::append_run_ended$')
-    ctx.floor('C07.1', 'append_run_ended call sites', len(enders), 1)
-    for s in enders:
-        ctx.ob('C07.1', s.fn, 'run-ended-only-in-run_session', s.fn is rs and len(enders) == 1, 'append_run_ended called from %s (%d site(s) in the workspace)' % (s.fn.path, len(enders)), line=s.line)
-    snaps = rs.calls(r'^rip_log::write_snapshot$')
-    rets = rs.returns()
-    if not snaps:
-        raise CheckError('C07.1: run_session has no write_snapshot call')
-    ctx.ob('C07.1', rs, 'snapshot-on-every-path', rs.must_pass([s.bb for s in snaps], 0, rets), 'every path from entry to return passes write_snapshot', line=snaps[0].line)
-    end = [s for s in enders if s.fn is rs]
-    if end:
-        e = end[0]
-        ctx.ob('C07.1', rs, 'run-ended-after-snapshot', any(rs.dom(s.bb, e.bb) for s in snaps), 'write_snapshot dominates append_run_ended', line=e.line)
-        ctx.ob('C07.1', rs, 'run-ended-not-in-loop', not rs.in_loop(e.bb), 'append_run_ended is outside every loop', line=e.line)
-        # the only bypass is the None edge of `if let Some(link) = continuity_run`
-        none_edges = []
-        for (bi, on, ts, els) in switches(rs):
-            src = rs.origin(on)
-            if src[0] == 'rv' and src[1]['k'] == 'discr':
-                l = src[1]['pl']['l']
-                if rs.lname(l) == 'continuity_run' and 'p' not in src[1]['pl']:
-                    some = ts.get('1')
-                    for tgt in set(list(ts.values()) + [els]):
-                        if tgt != some:
-                            none_edges.append((bi, tgt))
-        if not none_edges:
-            raise CheckError('C07.1: no test of `continuity_run` found in run_session')
-        r = rs.reach(0, stop=[e.bb], skip_edges=none_edges)
-        ctx.ob('C07.1', rs, 'run-ended-on-every-linked-path', not any(x in r for x in rets), 'a return is reachable without append_run_ended only through the None edge of the continuity_run test', line=e.line)
-        after = rs.reach_from_after(e.bb)
-        late = [c for c in rs.calls(r'^ripd::session::emit_events?$') if c.bb in after]
-        ctx.ob('C07.1', rs, 'nothing-after-run-ended', not late, 'no session frame is emitted after append_run_ended', line=late[0].line if late else e.line)
-        # terminal emissions precede it
-        for c in rs.calls(r'^ripd::session::emit_event$'):
-            if event_kind_of(rs, c.args[0]) == 'SessionEnded':
-                ctx.ob('C07.1', rs, 'terminal-before-run-ended', rs.can_reach(c.bb, e.bb) and not rs.can_reach(e.bb, c.bb), 'SessionEnded emission precedes append_run_ended', line=c.line)
-
-    # ---------------------------------------------------------------- C07.2
     term_blocks = {}
     for c in rs.calls(r'^ripd::session::emit_event$'):
         if event_kind_of(rs, c.args[0]) == 'SessionEnded':
             term_blocks[c.bb] = c.line
-    ctx.floor('C07.2', 'explicit SessionEnded emissions in run_session', len(term_blocks), 2)
+    if len(term_blocks) < 2:
+        raise CheckError('C07.2: explicit SessionEnded emissions in run_session: found %d, floor is 2' % len(term_blocks))
     kernel_loops = []
     for h, body in rs.loops().items():
         if any(c.bb in body for c in rs.calls(r'^rip_kernel::Session::next_event$')):
@@ -158,6 +112,85 @@ def run(ctx):
             if s == kh and b not in kbody:
                 c2 = min(cnt + 1, 2)
             work.append((s, c2, fl))
+    def succ_states(b, cnt, fl):
+        """successor states of (b, cnt, fl) — same transfer as the exploration above."""
+        if b in sets:
+            fl = sets[b]
+        if b in term_blocks:
+            cnt = min(cnt + 1, 2)
+        t = rs.blocks[b]['t']
+        if t['k'] == 'ret':
+            return []
+        succ = list(rs.succs(b))
+        if b in flag_switch and fl is not None:
+            f_t, t_t, neg = flag_switch[b]
+            val = (not fl) if neg else fl
+            succ = [t_t if val else f_t]
+        out = []
+        for s2 in succ:
+            c2 = cnt
+            if s2 == kh and b not in kbody:
+                c2 = min(cnt + 1, 2)
+            out.append((s2, c2, fl))
+        return out
+    return dict(rs=rs, seen=seen, bad=bad, final=final, term_blocks=term_blocks, kh=kh, kbody=kbody, sets=sets, flag_switch=flag_switch, succ_states=succ_states)
+
+
+def run(ctx):
+    P = ctx.prog
+    E = Effects(P)
+    ctx.not_decided = 'a panic inside run_session (no unwinding model, A2); provider-side behaviours are covered only in so far as every path of the code is covered.'
+    ctx.rule('C07.1', 'single exit: append_run_ended has exactly one call site in the workspace, in run_session, outside every loop, dominated by write_snapshot; every path from entry to return passes write_snapshot, and the only way around append_run_ended is the None edge of the continuity_run test; no frame is emitted after it.')
+    ctx.rule('C07.2', 'exactly one terminal session frame on every path of run_session: abstract interpretation over (terminal frames emitted in {0,1,2+}, skip_runtime_loop in {F,T}); explicit SessionEnded emissions count 1, entering the kernel next_event loop counts 1; every return must be reached with count == 1. Session::next_event constructs SessionEnded only in stage End and in the hook-abort arm, both of which set stage Done.')
+    ctx.rule('C07.3', 'order inside a run: selection_decided dominates context_compiled with no other truth append between; neither can follow the provider loop call; cursor_updated is dominated by the loop call and cannot follow the terminal emission.')
+    ctx.rule('C07.4', 'post message: append_message dominates append_run_spawned dominates spawn_session; spawn_session is unreachable from the error edge of either; none is in a loop.')
+    ctx.rule('C07.5', 'a compaction job is ended at most once: the append_job_ended sites are mutually unreachable and outside loops.')
+    ctx.rule('C07.6', 'Runtime::register_hook has no caller in production code (an aborting hook would end a session before its start frame).')
+
+    rs = P.body('ripd::session::run_session')
+    ctx.touch(rs)
+    # ---------------------------------------------------------------- C07.1
+    enders = P.callers(r'^ripd::continuities::ContinuityStore::append_run_ended$')
+    ctx.floor('C07.1', 'append_run_ended call sites', len(enders), 1)
+    for s in enders:
+        ctx.ob('C07.1', s.fn, 'run-ended-only-in-run_session', s.fn is rs and len(enders) == 1, 'append_run_ended called from %s (%d site(s) in the workspace)' % (s.fn.path, len(enders)), line=s.line)
+    snaps = rs.calls(r'^rip_log::write_snapshot$')
+    rets = rs.returns()
+    if not snaps:
+        raise CheckError('C07.1: run_session has no write_snapshot call')
+    ctx.ob('C07.1', rs, 'snapshot-on-every-path', rs.must_pass([s.bb for s in snaps], 0, rets), 'every path from entry to return passes write_snapshot', line=snaps[0].line)
+    end = [s for s in enders if s.fn is rs]
+    if end:
+        e = end[0]
+        ctx.ob('C07.1', rs, 'run-ended-after-snapshot', any(rs.dom(s.bb, e.bb) for s in snaps), 'write_snapshot dominates append_run_ended', line=e.line)
+        ctx.ob('C07.1', rs, 'run-ended-not-in-loop', not rs.in_loop(e.bb), 'append_run_ended is outside every loop', line=e.line)
+        # the only bypass is the None edge of `if let Some(link) = continuity_run`
+        none_edges = []
+        for (bi, on, ts, els) in switches(rs):
+            src = rs.origin(on)
+            if src[0] == 'rv' and src[1]['k'] == 'discr':
+                l = src[1]['pl']['l']
+                if rs.lname(l) == 'continuity_run' and 'p' not in src[1]['pl']:
+                    some = ts.get('1')
+                    for tgt in set(list(ts.values()) + [els]):
+                        if tgt != some:
+                            none_edges.append((bi, tgt))
+        if not none_edges:
+            raise CheckError('C07.1: no test of `continuity_run` found in run_session')
+        r = rs.reach(0, stop=[e.bb], skip_edges=none_edges)
+        ctx.ob('C07.1', rs, 'run-ended-on-every-linked-path', not any(x in r for x in rets), 'a return is reachable without append_run_ended only through the None edge of the continuity_run test', line=e.line)
+        after = rs.reach_from_after(e.bb)
+        late = [c for c in rs.calls(r'^ripd::session::emit_events?$') if c.bb in after]
+        ctx.ob('C07.1', rs, 'nothing-after-run-ended', not late, 'no session frame is emitted after append_run_ended', line=late[0].line if late else e.line)
+        # terminal emissions precede it
+        for c in rs.calls(r'^ripd::session::emit_event$'):
+            if event_kind_of(rs, c.args[0]) == 'SessionEnded':
+                ctx.ob('C07.1', rs, 'terminal-before-run-ended', rs.can_reach(c.bb, e.bb) and not rs.can_reach(e.bb, c.bb), 'SessionEnded emission precedes append_run_ended', line=c.line)
+
+    # ---------------------------------------------------------------- C07.2
+    st_ = run_session_states(P)
+    seen, bad, final, term_blocks, kh, kbody, sets = st_['seen'], st_['bad'], st_['final'], st_['term_blocks'], st_['kh'], st_['kbody'], st_['sets']
+    ctx.floor('C07.2', 'explicit SessionEnded emissions in run_session', len(term_blocks), 2)
     ctx.ob('C07.2', rs, 'exactly-one-terminal-frame', not bad,
            'abstract states at return: %s (explored %d (block,count,flag) states; %d explicit SessionEnded sites + the kernel loop)' % (sorted(final, key=str), len(seen), len(term_blocks))
            if not bad else 'a return is reachable with %d terminal session frame(s) (skip_runtime_loop=%s)' % (bad[0][1], bad[0][2]))
